@@ -225,7 +225,11 @@ class Tensor(Funsor, metaclass=TensorMeta):
         )
         # A variable or slice is substituted by renaming only if its name does
         # not collide with an input that keeps its name during the renaming.
-        renamed = {k for k, v in subs.items() if isinstance(v, (Variable, Slice))}
+        renamed = {
+            k
+            for k, v in subs.items()
+            if isinstance(v, (Variable, Slice)) and name_counts[v.name] == 1
+        }
         while True:
             clashing = {
                 k
@@ -239,8 +243,7 @@ class Tensor(Funsor, metaclass=TensorMeta):
             (
                 k,
                 self.materialize(v)
-                if isinstance(v, (Variable, Slice))
-                and (name_counts[v.name] > 1 or k not in renamed)
+                if isinstance(v, (Variable, Slice)) and k not in renamed
                 else v,
             )
             for k, v in subs.items()
